@@ -19,6 +19,14 @@ FAULTS = [
     ("write", 5, 4, "wal_"), ("write", 122, 30, "wal_"), ("write", 27, 1, "wal_"), ("write", 4, 7, "wal_"),
     ("fsync", 5, None, "wal_"), ("fsync", 28, None, "wal_"),
 ]
+# publication faults: the MANIFEST rewrite of a log rotation / automatic snapshot inside a write op fails (temp-file create,
+# write, fsync, rename), or the new segment / snapshot file cannot be created; the write op itself is acknowledged
+# ("continuing with current WAL"), so everything acknowledged from then on must still be recoverable
+PUB_FAULTS = [
+    ("rename", 5, None, "MANIFEST"), ("rename", 28, None, "MANIFEST"), ("write", 28, 0, "MANIFEST"), ("write", 5, 3, "MANIFEST"),
+    ("fsync", 5, None, "MANIFEST"), ("open", 28, None, "MANIFEST"), ("open", 13, None, "wal_"), ("open", 28, None, "snapshot_"),
+    ("write", 28, 0, "snapshot_"), ("fsync", 5, None, "snapshot_"), ("rename", 5, None, "snapshot_"),
+]
 
 
 def with_faults(rng, case):
@@ -27,8 +35,8 @@ def with_faults(rng, case):
     out = [case[0].replace("crash=1", "crash=0")]
     for l in case[1:]:
         op = l.split(" ")[0]
-        if op in ("insert", "delete", "update", "batch_delete") and rng.random() < 0.3:
-            call, errno, short, path = rng.choice(FAULTS)
+        if op in ("insert", "delete", "update", "batch_delete", "snapshot") and rng.random() < 0.3:
+            call, errno, short, path = rng.choice(PUB_FAULTS if op == "snapshot" or rng.random() < 0.35 else FAULTS)
             # nth=1 only inside a batch (second frame); elsewhere the second WAL write of an op is the magic of a
             # rotated segment, whose failure is swallowed by design (rotation is retried at the next write)
             f = "fault call=%s nth=%d errno=%d path=%s" % (call, rng.choice([0, 1]) if op == "batch_delete" and call == "write" else 0, errno, path)
@@ -64,5 +72,7 @@ def run(tier, seed, replay):
         "FAULTS armed in front of ~30% of the write ops: the frame write fails outright or after a short write "
         "(ENOSPC, EIO, EDQUOT, EFBIG, EINTR; 0/1/4/7/10/30 bytes stored), the sync after the frame fails, optionally the "
         "rollback's truncate fails too; the op may fail (must be a no-op: no net bytes left in the log) or be retried and "
-        "succeed; later acknowledged writes, two clean restarts and censuses follow",
-        ["faults on the WAL path of write operations only (snapshot/MANIFEST publication faults are not injected yet)"])
+        "succeed; later acknowledged writes, two clean restarts and censuses follow; a third of the armed faults hit the "
+        "PUBLICATION steps that run inside a write op instead (MANIFEST temp-file create / write / fsync / rename, creation "
+        "of the rotated-in segment, snapshot file create / write / fsync / rename) and manual snapshots",
+        ["one fault (optionally plus a failing rollback truncate) per operation; faults during start-up are part of C01/C13"])
